@@ -1,0 +1,21 @@
+//go:build !verif
+
+package rpc
+
+import (
+	"io"
+	"reflect"
+)
+
+// Stubs of the verification trace hooks (see trace_verif.go).
+
+func verifSend(client *Client, call *Call, seq uint64)              {}
+func verifSendShutdown(client *Client, call *Call)                  {}
+func verifRecv(client *Client, seq uint64)                          {}
+func verifInputEnd(client *Client, err error, closing bool)         {}
+func verifServe(codec ServerCodec, conn io.ReadWriteCloser)         {}
+func verifRead(codec ServerCodec, req *Request, argv reflect.Value) {}
+func verifCommitBegin() bool                                        { return false }
+func verifCommitEnd(tok bool, codec ServerCodec, req *Request, reply any, errmsg string) {
+}
+func verifRespond(codec ServerCodec, req *Request) {}
